@@ -28,6 +28,14 @@ class Parser:
         """
         self._all_modules = []
 
+        # everything below an excluded directory is excluded - also if the scan starts below that directory
+        if any(
+            self._filter.is_excluded(parent)
+            for parent in path.parents
+            if parent == self._source_root or self._source_root in parent.parents
+        ):
+            return [], []
+
         paths = [path]
         modules = []
 
